@@ -23,7 +23,10 @@ def instantiate_template():
     out += b
     a, rest = out.split("//@INT-BEGIN\n", 1)
     body, b = rest.split("//@INT-END\n", 1)
-    out = a + "".join(body.replace("@T@", t) for t in INT_TYPES) + b
+    # unsafe.String with a length operand narrower than int does not compile on the unchanged tree (the backend aborts:
+    # ssa/expr.go passes the operand unconverted); that case lives in a separate probe program (ustr_probe below)
+    narrow_body = re.sub(r'\tcase "ustr":\n.*?\tcase "cp":', '\tcase "cp":', body, flags=re.S)
+    out = a + "".join((body if INT_TYPES[t][0] == 64 else narrow_body).replace("@T@", t) for t in INT_TYPES) + b
     out = out.replace("//@INT-DISPATCH", "\n\t".join('case "%s":\n\t\treturn typed_%s(f)' % (t, t) for t in INT_TYPES))
     out = out.replace("//@RESET-ALL", "\n\t\t".join("reset%d()" % n for n in C.ESIZES))
     out = out.replace("//@DISPATCH", "\n\t\t".join("case %d:\n\t\t\treturn handle%d(f)" % (n, n) for n in C.ESIZES))
@@ -83,7 +86,8 @@ def gen_typed_lines(rng, quick):
                     ls.append("ty %s ap %d" % (t, v))
                 if v >= 0:          # negative / oversized lengths of unsafe.Slice are C03's subject (mandated panic)
                     ls.append("ty %s us %d" % (t, v))
-                    ls.append("ty %s ustr %d" % (t, v))
+                    if INT_TYPES[t][0] == 64:
+                        ls.append("ty %s ustr %d" % (t, v))
         for v in vz:
             ls.append("ty %s zrelo %d" % (t, v))
             ls.append("ty %s zrehi 0 %d" % (t, v))
